@@ -50,7 +50,7 @@ def _in_family(m, fi: FuncInfo) -> bool:
 def run(ctx: Ctx):
   m = model(ctx)
   eng = m.eng
-  for r in (r1, r2, r3, r4, r5, r6, r7, r8, r9, r10, r11, r13, r14, r16):
+  for r in (r1, r2, r3, r4, r5, r6, r7, r8, r9, r10, r11, r13, r14, r16, r17, r18):
     ctx.guard(r, m)
   from mlmverif.props import c13
   ctx.include('R-C04-15', '"end-of-stream carrying all producers\' return values":'
@@ -583,6 +583,114 @@ def r16(ctx: Ctx, m):
                    ' being waited on — the producer fails and the rest of its elements are never'
                    ' delivered', node=t)
   ctx.floor(rule, 4, n)
+
+
+def r17(ctx: Ctx, m):
+  rule = 'R-C04-17'
+  ctx.rule(rule, '"no interleaving deadlocks or leaves a consumer or producer blocked for ever" on the'
+           ' event loop: a coroutine of the queue family never CALLS an operation that can wait on a'
+           ' queue condition (get / get_batch / put and the helpers built on them) — it hands it to'
+           ' run_in_executor as a callable. A blocking call made on the event-loop thread ("the buffer'
+           ' looked non-empty") stops the loop when another consumer wins the race: async producers on'
+           ' that loop can never enqueue again and everybody waits for ever')
+  repo = ctx.repo
+  mi = repo.module(QMOD)
+  allf = {f.name: f for f in mi.functions.values()}
+  for ci in m.classes:
+    for f in ci.methods.values():
+      allf.setdefault(f.name, f)
+  # functions that wait on a condition themselves
+  blocking = {name for name, f in allf.items() if not isinstance(f.node, ast.AsyncFunctionDef) and any(
+      isinstance(c, ast.Call) and isinstance(c.func, ast.Attribute) and c.func.attr == 'wait'
+      and 'lock' in unparse(c.func.value).lower() for c in walk_no_nested(f.node))}
+  if not {'get', 'put', 'get_batch'} <= blocking:
+    raise AnalysisError(f'{rule}: get/put/get_batch are no longer recognised as waiting on a condition ({sorted(blocking)})')
+  # ... and the sync functions that call them
+  for _ in range(3):
+    for name, f in allf.items():
+      if name in blocking or isinstance(f.node, ast.AsyncFunctionDef):
+        continue
+      if any(isinstance(c, ast.Call) and unparse(c.func).split('.')[-1] in blocking for c in walk_no_nested(f.node)):
+        blocking.add(name)
+  n = 0
+  for name, f in allf.items():
+    if not isinstance(f.node, ast.AsyncFunctionDef):
+      continue
+    n += 1
+    direct = [c for c in walk_no_nested(f.node) if isinstance(c, ast.Call) and unparse(c.func).split('.')[-1] in blocking
+              and not unparse(c.func).split('.')[-1].startswith('async_')]
+    if direct:
+      ctx.fail(rule, f, f'{f.qualname}: blocking queue operations run in the executor, never on the event loop',
+               f'`{unparse(direct[0])[:60]}` is called directly inside the coroutine {f.qualname}; it can wait on a queue'
+               ' condition (e.g. when another consumer takes the buffered element first) and then blocks the'
+               ' event-loop thread: producers scheduled on that loop never run again', node=direct[0])
+    else:
+      ctx.ok(rule, f, f'{f.qualname}: no direct call of a blocking operation', f.node)
+  ctx.floor(rule, 4, n)
+
+
+def r18(ctx: Ctx, m):
+  rule = 'R-C04-18'
+  ctx.rule(rule, '"once all producers finish every consumer terminates with end-of-stream": in get_batch the'
+           ' handler for a failure of the non-blocking attempt decides between handing over what it has'
+           ' and re-raising. Folded for the state "end-of-stream was raised and nothing was dequeued in'
+           ' this call" (is_stop_iteration(e) true, the batch empty) the hand-over condition must be'
+           ' FALSE for every value of ignore_error, so that StopIteration(*returned) reaches the caller;'
+           ' otherwise an exhausted queue returns [] for ever and its consumers never terminate')
+  fi = m.method('get_batch')
+  handlers = [h for h in walk_no_nested(fi.node) if isinstance(h, ast.ExceptHandler) and h.type is not None
+              and unparse(h.type) == 'Exception' and h.name]
+  if not handlers:
+    raise AnalysisError(f'{rule}: get_batch has no `except Exception as e` handler')
+  h = handlers[0]
+  batch = next((c.func.value.id for c in ast.walk(fi.node) if isinstance(c, ast.Call) and isinstance(c.func, ast.Attribute)
+                and c.func.attr == 'append' and isinstance(c.func.value, ast.Name)), None)
+  if batch is None:
+    raise AnalysisError(f'{rule}: batch list of get_batch not found')
+  # locals of the handler that hold is_stop_iteration(e)
+  stop_flags = {t.id for x in h.body if isinstance(x, ast.Assign) and isinstance(x.value, ast.Call) and unparse(
+      x.value.func).split('.')[-1] == 'is_stop_iteration' for t in x.targets if isinstance(t, ast.Name)}
+
+  def fold(e, ign):
+    if isinstance(e, ast.BoolOp):
+      vals = [fold(v, ign) for v in e.values]
+      if isinstance(e.op, ast.And):
+        return False if False in vals else (None if None in vals else True)
+      return True if True in vals else (None if None in vals else False)
+    if isinstance(e, ast.UnaryOp) and isinstance(e.op, ast.Not):
+      v = fold(e.operand, ign)
+      return None if v is None else not v
+    if isinstance(e, ast.Name):
+      if e.id in stop_flags:
+        return True
+      if e.id == batch:
+        return False
+      return None
+    if isinstance(e, ast.Call) and unparse(e.func).split('.')[-1] == 'is_stop_iteration':
+      return True
+    if is_self_attr(e, 'ignore_error'):
+      return ign
+    return None
+
+  conds = [x for x in h.body if isinstance(x, ast.If) and any(isinstance(b, (ast.Break, ast.Return)) for b in x.body)]
+  if not conds:
+    raise AnalysisError(f'{rule}: hand-over condition of the get_batch failure handler not found')
+  n = 0
+  for c in conds:
+    for ign in (True, False):
+      n += 1
+      v = fold(c.test, ign)
+      if v is None:
+        raise AnalysisError(f'{rule}: cannot fold `{unparse(c.test)}`')
+      if v:
+        ctx.fail(rule, fi, 'get_batch: end-of-stream with an empty batch is raised, whatever ignore_error says',
+                 f'with ignore_error={ign}, end-of-stream raised by the attempt and nothing dequeued in this call,'
+                 f' `{unparse(c.test)[:70]}` is true: get_batch leaves the loop and returns [] instead of raising'
+                 ' StopIteration(*returned) — batch consumers of an exhausted queue spin for ever and never see the'
+                 ' producers\' return values', node=c.test)
+      else:
+        ctx.ok(rule, fi, f'ignore_error={ign}: end-of-stream with an empty batch falls through to the raise', c.test)
+  ctx.floor(rule, 2, n)
 
 
 def r7(ctx: Ctx, m):
@@ -1170,6 +1278,12 @@ VARIANTS = [
       '    if not self._max_enqueuer:\n      return False\n    return self._enqueue_start == self._enqueue_stop == self._max_enqueuer',
       '    remaining = self._enqueue_start - self._enqueue_stop\n    return not remaining and self._enqueue_start >= self._max_enqueuer',
       'R-C04-13'),
+    B('async-get-batch-blocks-on-the-loop', 'utils/iter_utils.py',
+      '    loop = asyncio.get_event_loop()\n    result = await loop.run_in_executor(\n        self._thread_pool, _async_get_batch, self\n    )',
+      '    if not self._queue.empty():\n      result = _async_get_batch(self)\n    else:\n      loop = asyncio.get_event_loop()\n      result = await loop.run_in_executor(\n          self._thread_pool, _async_get_batch, self\n      )', 'R-C04-17'),
+    B('ignore-error-swallows-end-of-stream', 'utils/iter_utils.py',
+      '          exhausted = is_stop_iteration(e)\n          if (exhausted and result) or (not exhausted and self.ignore_error):',
+      '          if self.ignore_error or (is_stop_iteration(e) and result):', 'R-C04-18'),
     B('revert-get-nowait-wakes-producer', 'utils/iter_utils.py',
       '      with self._enqueue_lock:\n        self._enqueue_lock.notify()\n      return result\n',
       '      return result\n', 'R-C04-5'),
